@@ -425,6 +425,7 @@ class DCM(np.ndarray):
                 ax, ang = kwargs.pop('axang')
                 array = DCM.from_axisangle(DCM, np.array(ax), ang)
         _assert_numerical_iterable(array, "Direction Cosine Matrix")
+        array = np.array(array, dtype=float, order='C')     # Used as the buffer of the new object below
         _assert_SO3(array, "Direction Cosine Matrix")
         # Create the ndarray instance of type DCM. This will call the standard
         # ndarray constructor, but return an object of type DCM.
